@@ -197,10 +197,18 @@ type c18Reg struct {
 	off    func(ev string, hs []int)
 	offAll func()
 	occur  func(ev string, k int) (occurred int) // produces k occurrences at once, waits for quiescence; 0 = not enabled now
+	fire   func(ev string)                       // one occurrence, without waiting for it (nil where an occurrence is not always enabled)
+}
+
+// c18Events are the event names each registry is exercised with. A Namespace refuses only connect, connection and new_namespace
+// (namespace_events.go): the names reserved for sockets are ordinary names there, and two of them are used on purpose.
+var c18Events = map[string][]string{
+	"server-socket-events": {"a", "b"}, "client-socket-events": {"a", "b"}, "namespace-events": {"disconnect", "a", "error"}, "namespace-connection": {"connection"},
+	"server-any-connection": {"connection"}, "client-lifecycle": {"connect", "disconnect"}, "manager-close": {"close"},
 }
 
 func c18Registries() []string {
-	return []string{"server-socket-events", "client-socket-events", "namespace-connection", "server-any-connection", "client-lifecycle", "manager-close"}
+	return []string{"server-socket-events", "client-socket-events", "namespace-events", "namespace-connection", "server-any-connection", "client-lifecycle", "manager-close"}
 }
 
 func pick[T any](pool []T, hs []int) []T {
@@ -245,6 +253,7 @@ func buildC18(r *rig, kind string) (*c18Reg, string) {
 			once:   func(ev string, h int) { ss.OnceEvent(ev, c18ev[h]) },
 			off:    func(ev string, hs []int) { ss.OffEvent(ev, anys(pick(c18ev, hs))...) },
 			offAll: func() { ss.OffAll() },
+			fire:   func(ev string) { cli.Emit(ev) },
 			occur: func(ev string, k int) int {
 				for i := 0; i < k; i++ {
 					cli.Emit(ev)
@@ -265,6 +274,7 @@ func buildC18(r *rig, kind string) (*c18Reg, string) {
 			once:   func(ev string, h int) { cli.OnceEvent(ev, c18ev[h]) },
 			off:    func(ev string, hs []int) { cli.OffEvent(ev, anys(pick(c18ev, hs))...) },
 			offAll: func() { cli.OffAll() },
+			fire:   func(ev string) { ss.Emit(ev) },
 			occur: func(ev string, k int) int {
 				for i := 0; i < k; i++ {
 					ss.Emit(ev)
@@ -272,9 +282,27 @@ func buildC18(r *rig, kind string) (*c18Reg, string) {
 				settle(0)
 				return k
 			}}, ""
+	case "namespace-events":
+		// The handlers of a Namespace's own events: what the other servers of a cluster send with ServerSideEmit, delivered by the
+		// adapter through the exported Namespace.OnServerSideEmit (the in-memory adapter has no peers, so the harness plays that part).
+		nsp := r.Server.Of("/")
+		return &c18Reg{events: c18Events[kind],
+			on:     func(ev string, h int) { nsp.OnEvent(ev, c18ev[h]) },
+			once:   func(ev string, h int) { nsp.OnceEvent(ev, c18ev[h]) },
+			off:    func(ev string, hs []int) { nsp.OffEvent(ev, anys(pick(c18ev, hs))...) },
+			offAll: func() { nsp.OffAll() },
+			fire:   func(ev string) { nsp.OnServerSideEmit(ev) },
+			occur: func(ev string, k int) int {
+				for i := 0; i < k; i++ {
+					nsp.OnServerSideEmit(ev)
+				}
+				settle(0)
+				return k
+			}}, ""
 	case "namespace-connection":
 		nsp := r.Server.Of("/")
 		return &c18Reg{events: []string{"connection"},
+			fire: func(ev string) { r.manager([]string{"websocket"}, nil).Socket("/", nil).Connect() },
 			on:   func(ev string, h int) { nsp.OnConnection(c18conn[h]) },
 			once: func(ev string, h int) { nsp.OnceConnection(c18conn[h]) },
 			off: func(ev string, hs []int) {
@@ -297,6 +325,7 @@ func buildC18(r *rig, kind string) (*c18Reg, string) {
 			}}, ""
 	case "server-any-connection":
 		return &c18Reg{events: []string{"connection"},
+			fire: func(ev string) { r.manager([]string{"websocket"}, nil).Socket("/", nil).Connect() },
 			on:   func(ev string, h int) { r.Server.OnAnyConnection(c18any[h]) },
 			once: func(ev string, h int) { r.Server.OnceAnyConnection(c18any[h]) },
 			off: func(ev string, hs []int) {
@@ -578,10 +607,7 @@ func uniqStrings(ss []string) []string {
 
 func genC18Case(t *rapid.T) c18Case {
 	c := c18Case{Registry: rapid.SampledFrom(c18Registries()).Draw(t, "registry")}
-	events := map[string][]string{
-		"server-socket-events": {"a", "b"}, "client-socket-events": {"a", "b"}, "namespace-connection": {"connection"},
-		"server-any-connection": {"connection"}, "client-lifecycle": {"connect", "disconnect"}, "manager-close": {"close"},
-	}[c.Registry]
+	events := c18Events[c.Registry]
 	maxSteps := 24
 	if c.Registry == "namespace-connection" || c.Registry == "server-any-connection" || c.Registry == "manager-close" {
 		maxSteps = 14 // every occurrence is a new client connection
@@ -623,7 +649,7 @@ func genC18Case(t *rapid.T) c18Case {
 func TestC18_Model(t *testing.T) {
 	setT(t)
 	defer startWatchdog(t, 60*1e9)()
-	ev := NewEv(t, "C18", c18Check, "rapid state machine over six registries through the public API (server/client socket OnEvent/OnceEvent/OffEvent/OffAll; Namespace On/Once/OffConnection; "+
+	ev := NewEv(t, "C18", c18Check, "rapid state machine over seven registries through the public API (server/client socket and Namespace OnEvent/OnceEvent/OffEvent/OffAll, the Namespace with event names that are reserved for sockets only; Namespace On/Once/OffConnection; "+
 		"Server On/Once/OffAnyConnection; client On/Once/OffConnect|Disconnect; Manager On/Once/OffClose) with real occurrences in a virtual-time rig, 8 distinct handler functions per signature; "+
 		"occurrences singly (reference registry, set of admissible models for duplicate registrations) and in simultaneous bursts of 2..6 (Once at most once, On every time); "+
 		"non-trivial = an Off naming >= 2 handlers, a duplicate registration, or a Once raced by >= 2 occurrences")
